@@ -1,5 +1,5 @@
 import HdVerif.Proofs.Aliasing
-import HdVerif.Model.AliasTables
+import HdVerif.Proofs.C20Tables
 import HdVerif.Model.VR
 import HdVerif.Generated.T20uid
 import HdVerif.Generated.T20pkg
@@ -15,6 +15,7 @@ import HdVerif.Generated.T20calls
   `Model/AliasTables.lean: rebuildsContainer` (hand-written name list) vs the callees' own programs and signatures
   (`Gen.converterCalls`, `Gen.converterCopyDefaults`).
 -/
+set_option linter.unusedSimpArgs false
 namespace HdVerif.C20Tie
 open HdVerif HdVerif.VR HdVerif.Aliasing HdVerif.Gen
 
@@ -48,11 +49,62 @@ def ruleAgrees (call : String × String) : Bool :=
       e.hasCopy && !rebuildsContainer e && nocopyReturnsSame e && copyLeavesOriginal e
     else call.2 == "private"
 
-set_option maxRecDepth 1000000 in
+/-- the part of `ruleAgrees` that is about names and flags only (the behaviour of each entry was evaluated once, in its own
+module under `Proofs/C20Tables/`) -/
+def ruleFlags (call : String × String) : Bool :=
+  (entriesOf call.1).all fun e =>
+    if call.2 == "rebuild" then e.hasCopy && rebuildsContainer e
+    else if call.2 == "default" then true
+    else if call.2 == "copy" then e.hasCopy
+    else if call.2 == "inplace" || call.2 == "flag" then e.hasCopy && !rebuildsContainer e
+    else call.2 == "private"
+
+private theorem flags_ok : (converterCalls.all ruleFlags) = true := by decide +kernel
+
+/-- what `converterOk` says about an entry, spelled out -/
+theorem facts_of_ok {e : Entry} (h : converterOk e = true) :
+    (e.hasCopy = true → copyLeavesOriginal e = true ∧ (rebuildsContainer e == !nocopyReturnsSame e) = true ∧ 0 < e.nIn) ∧
+    (e.hasCopy = false → neverWritesInputs e = true) ∧ wellFormed e = true := by
+  unfold converterOk at h
+  simp only [Bool.and_eq_true] at h
+  refine ⟨fun hc => ?_, fun hc => ?_, h.1⟩
+  · have h2 := h.2
+    simp only [hc, cond_true, Bool.and_eq_true, decide_eq_true_eq] at h2
+    exact ⟨h2.1.2, h2.2, h2.1.1⟩
+  · have h2 := h.2
+    simpa only [hc, cond_false] using h2
+
+private theorem ruleAgrees_of_flags (call : String × String) (h : ruleFlags call = true) : ruleAgrees call = true := by
+  unfold ruleAgrees
+  unfold ruleFlags at h
+  apply List.all_eq_true.mpr
+  intro e he
+  have hf := List.all_eq_true.mp h e he
+  have hin : e ∈ allEntries := (List.mem_filter.mp he).1
+  obtain ⟨hcopy, hno, _⟩ := facts_of_ok (C20Tables.entry_ok hin)
+  cases hc : e.hasCopy
+  · have h1 := hno hc
+    simp only [hc, h1, Bool.false_and] at hf ⊢
+    exact hf
+  · obtain ⟨h1, h2, _⟩ := hcopy hc
+    cases hr : rebuildsContainer e
+    · rw [hr] at h2
+      have h3 : nocopyReturnsSame e = true := by
+        cases h4 : nocopyReturnsSame e
+        · rw [h4] at h2; cases h2
+        · rfl
+      simp only [hc, hr, h1, h3, Bool.true_and, Bool.and_self, Bool.not_false, Bool.and_true] at hf ⊢
+      exact hf
+    · simp only [hc, hr, h1, Bool.true_and, Bool.and_self, Bool.not_true, Bool.and_false, Bool.false_and] at hf ⊢
+      exact hf
+
 /-- **call rules = callee behaviour**: for every converter call in the package, the rule the extractor models the call by is
 what the callee's regenerated program does (returns its argument for `copy=False`, a new object otherwise; rebuilders exactly where
 the rebuild rule is used) -/
-theorem converter_call_rules_agree : (converterCalls.all ruleAgrees) = true := by decide +kernel
+theorem converter_call_rules_agree : (converterCalls.all ruleAgrees) = true := by
+  apply List.all_eq_true.mpr
+  intro call hcall
+  exact ruleAgrees_of_flags call (List.all_eq_true.mp flags_ok call hcall)
 
 /-- every converter's `copy` parameter defaults to `True` (so a call without the argument — also one through `cls`, `super()` or a
 class held in a variable — copies) -/
@@ -60,6 +112,13 @@ theorem converter_copy_defaults_true : (converterCopyDefaults.all fun x => x.2) 
 
 /-- the hand-written list `rebuildsContainer` names exactly the converters whose program returns a new object for `copy=False` -/
 theorem rebuilders_are_exactly_the_non_returning :
-    (allEntries.all fun e => !e.hasCopy || (rebuildsContainer e == !nocopyReturnsSame e)) = true := by decide +kernel
+    (allEntries.all fun e => !e.hasCopy || (rebuildsContainer e == !nocopyReturnsSame e)) = true := by
+  apply List.all_eq_true.mpr
+  intro e he
+  obtain ⟨hcopy, _, _⟩ := facts_of_ok (C20Tables.entry_ok he)
+  cases hc : e.hasCopy
+  · rfl
+  · simp only [Bool.not_true, Bool.false_or]
+    exact (hcopy hc).2.1
 
 end HdVerif.C20Tie
